@@ -592,3 +592,33 @@ Proof.
   intros b payloads fs Hb Hfs c Hr Hm pre s post E. rewrite stream_records_concat.
   destruct (chain_finished b payloads fs Hb Hfs c Hr Hm pre s post E) as [-> _]. reflexivity.
 Qed.
+
+(* ------------------------------------------------------------------------------------------- *)
+(* "fill, then drain": a source that writes at most block_count - 1 blocks and then poisons never blocks, even when nobody *)
+(* consumes yet: the queue behind it (capacity block_count, Chain::Add) takes the data blocks AND the poison.              *)
+Lemma src_alone_gen : forall b rest q s1 tl mp, length (sq s1) + length rest + 1 <= b -> length rest + 1 <= length q ->
+  exists c, chain_run b (repeat TSrc (2 * (length rest + 1))) (mkchain q SCons rest (s1 :: tl) mp) = Some c /\ sphs c = SDone /\
+            mainp c = mp /\ srest c = [].
+Proof.
+  intros b. induction rest as [|p r IH]; intros q s1 tl mp Hc Hq.
+  - destruct q as [|x q']; [simpl in Hq; lia|]. simpl.
+    assert (Hl : (length (sq s1) <? b) = true) by (apply Nat.ltb_lt; simpl in Hc; lia).
+    unfold chain_run. simpl. rewrite Hl. simpl. eauto.
+  - destruct q as [|x q']; [simpl in Hq; lia|].
+    assert (Hl : (length (sq s1) <? b) = true) by (apply Nat.ltb_lt; simpl in Hc; lia).
+    replace (2 * (length (p :: r) + 1)) with (S (S (2 * (length r + 1)))) by (simpl; lia).
+    unfold chain_run. simpl repeat. simpl fold_left. rewrite Hl. simpl.
+    apply (IH q' (mkseg (sq s1 ++ [Blk p]) (sf s1) (sseen s1) (sphase s1)) tl mp).
+    + simpl. rewrite app_length. simpl in *. lia.
+    + simpl in Hq. lia.
+Qed.
+
+Theorem source_alone_never_blocks : forall b payloads fs, fs <> [] -> length payloads + 1 <= b ->
+  exists c, chain_run b (repeat TSrc (2 * (length payloads + 1))) (chain_init b payloads fs) = Some c /\ sphs c = SDone.
+Proof.
+  intros b payloads fs Hfs Hb. unfold chain_init. destruct fs as [|f r]; [congruence|]. simpl map.
+  destruct (src_alone_gen b payloads (repeat Empty b) (mkseg [] f [] PCons) (map (fun f0 => mkseg [] f0 [] PCons) r) MJoin) as (c & H1 & H2 & _).
+  - simpl. lia.
+  - rewrite repeat_length. lia.
+  - exists c. auto.
+Qed.
